@@ -31,7 +31,7 @@ func drawC16(t *rapid.T) *C16Case {
 	magBits := rapid.IntRange(4, 28).Draw(t, "magBits") // base extent 2^magBits; scaled copy stays <= 2^28
 	c.ScaleK = rapid.IntRange(0, min(8, 28-magBits)).Draw(t, "scaleK")
 	R := int64(1) << magBits
-	switch rapid.IntRange(0, 5).Draw(t, "epsKind") {
+	switch rapid.IntRange(0, 6).Draw(t, "epsKind") {
 	case 0:
 		c.Eps = 0
 	case 1:
@@ -40,6 +40,8 @@ func drawC16(t *rapid.T) *C16Case {
 		c.Eps = 1
 	case 3:
 		c.Eps = 2
+	case 4: // as large as the path itself (everything but the end points may go)
+		c.Eps = rapid.Float64Range(float64(R)/4, 4*float64(R)).Draw(t, "epsHuge")
 	default:
 		c.Eps = rapid.Float64Range(0.01, float64(R)/4).Draw(t, "eps")
 	}
